@@ -9,6 +9,7 @@ import torch
 from .c20_impl import abs_code, combine, leaf_tensor, numel, tree_is_empty, walk, P
 
 DEFAULT = ("default",)
+TENS = [leaf_tensor]       # the tensor of a leaf id under a batch shape (replaced for the stacked view of a lazy stack)
 
 
 class Gray(Exception):
@@ -33,7 +34,7 @@ def arg_code(a, bs):
     if a is DEFAULT:
         return 7
     if a[0] == "L":
-        return leaf_tensor(a[1], bs)
+        return TENS[0](a[1], bs)
     return abs_code(a)
 
 
@@ -96,7 +97,7 @@ def ref_level(o, S, others, prefix, root, nones):
 def abstract_expected(t, bs=None):
     """an abstract tree as an expected tree (its present content)"""
     if t[0] == "L":
-        return ["L", leaf_tensor(t[1], bs).reshape(-1).tolist()]
+        return ["L", TENS[0](t[1], bs).reshape(-1).tolist()]
     if t[0] == "T":
         return ["T", t[2]]
     return ["N", None, {k: abstract_expected(c, t[2][0]) for k, c in t[3]}]
